@@ -306,6 +306,37 @@ func C14(p *ir.Program, r *report.R) {
 			r.Check("K8", "consensus.(*baseWAL).Write/encode-error-fatal", p.InstrPos(e[0]), !found, "Write returns normally only if Encode returned nil")
 		}
 	}
+
+	// ---- rolled files: the name the writer produces is a name the reader recognises ---------------------
+	// filePathForIndex writes "<head>.%03d" (at least three digits, more beyond 999); readGroupInfo must
+	// accept every such name ({3,}), else a long-lived log loses its tail after a restart.
+	{
+		fp := p.Func("libs/autofile", "filePathForIndex")
+		rg := p.Func("libs/autofile", "Group.readGroupInfo")
+		format, pattern := "", ""
+		for _, call := range ir.Calls(fp, "fmt.Sprintf") {
+			format = Arg(call, 0)
+		}
+		consts := func(fn *ssa.Function) {
+			ir.Instrs(fn, func(in ssa.Instruction) {
+				if call, ok := in.(*ssa.Call); ok && ir.CalleeName(call) == "regexp.MustCompile" {
+					pattern = Arg(call, 0)
+				}
+			})
+		}
+		consts(rg)
+		if pattern == "" {
+			// hoisted to a package-level variable: look in the package initialiser
+			if sp := p.SSAPkg[ir.Module+"/libs/autofile"]; sp != nil {
+				if f := sp.Func("init"); f != nil {
+					consts(f)
+				}
+			}
+		}
+		okFmt := strings.Contains(format, ".%03d")
+		okPat := strings.Contains(pattern, "[0-9]{3,}") || strings.Contains(pattern, "\\d{3,}") || strings.Contains(pattern, "[0-9]+") || strings.Contains(pattern, "\\d+")
+		r.Check("K5", "autofile/rolled-file-name/writer~reader", p.Pos(rg.Pos()), okFmt && okPat, "writer format "+format+" (>= 3 digits) and reader pattern "+pattern+" (must accept 3 OR MORE digits)")
+	}
 }
 
 var _ = report.Discharged
